@@ -193,7 +193,12 @@ def sign(v, cell):
     raise Unknown("sign of %r" % v)
 
 
+FLAGS = {}          # boolean switches fixed during a simulation, e.g. {"self.align": True}
+
+
 def truth(t, cell, S, P, env):
+    if norm(t) in FLAGS:
+        return FLAGS[norm(t)]
     if isinstance(t, ast.Compare) and len(t.ops) == 1:
         l = ev(t.left, cell, S, P, env)
         r = ev(t.comparators[0], cell, S, P, env)
@@ -233,7 +238,81 @@ def run(ctx):
     fn = cls.methods["assemble"]
     g = C.cfg_of(fn)
     P = "self.piece_length"
-    # the aligned listing loop: the loop that appends a literal with attr
+    listing(ctx, fn, g, P)
+    flag_agreement(ctx, fn, g)
+    # the hasher's align arm
+    hcls = ctx.prog.cls("torrentfile.hasher:Hasher")
+    hp = hcls.methods["_handle_partial"]
+    init = hcls.methods["__init__"]
+    st = [n for n in own_nodes(init.node) if isinstance(n, ast.Assign) and norm(n.targets[0]) == "self.align"]
+    ctx.decide("C15.3", init, len(st) == 1 and norm(st[0].value) == "align", "Hasher stores the align argument", "Hasher does not store its align argument unchanged", st[0] if st else init.node)
+    aligned_short_read(ctx, hcls, hp)
+
+
+def simulate(body, apps, cell, S, P):
+    """Entries one iteration of the listing loop appends for a file whose size lies in `cell`, with the align switch on:
+    [(kind, length Poly)], kind = 'file' | 'pad'."""
+    env, out = {}, []
+    app_stmt = set(apps)
+
+    class Skip(Exception):
+        pass
+
+    def contains(st, pred):
+        return any(pred(x) for x in ast.walk(st))
+
+    def run(stmts):
+        for st in stmts:
+            if isinstance(st, ast.Assign) and len(st.targets) == 1 and isinstance(st.targets[0], ast.Name):
+                name = st.targets[0].id
+                if name == S:
+                    continue
+                try:
+                    env[name] = ev(st.value, cell, S, P, env)
+                except Unknown:
+                    env.pop(name, None)
+                continue
+            if isinstance(st, ast.If):
+                relevant = contains(st, lambda x: x in app_stmt or isinstance(x, (ast.Continue, ast.Break, ast.Return)))
+                try:
+                    t = truth(st.test, cell, S, P, env)
+                except Unknown:
+                    if relevant:
+                        raise
+                    for x in ast.walk(st):
+                        if isinstance(x, ast.Assign):
+                            for tg in x.targets:
+                                if isinstance(tg, ast.Name):
+                                    env.pop(tg.id, None)
+                    continue
+                run(st.body if t else st.orelse)
+                continue
+            if isinstance(st, ast.Continue):
+                raise Skip()
+            if isinstance(st, (ast.Break, ast.Return)):
+                raise Unknown("`%s` inside the listing loop" % norm(st))
+            if isinstance(st, ast.Expr) and st.value in app_stmt:
+                d = st.value.args[0]
+                ent = {const_str(k): v for k, v in zip(d.keys, d.values)}
+                kind = "pad" if "attr" in ent else "file"
+                if ent.get("length") is None:
+                    raise Unknown("entry without a length")
+                out.append((kind, restrict(ev(ent["length"], cell, S, P, env), cell)))
+                continue
+            if contains(st, lambda x: x in app_stmt):
+                raise Unknown("entry appended inside `%s`" % norm(st)[:40])
+    FLAGS["self.align"] = True
+    try:
+        run(body)
+    except Skip:
+        pass
+    finally:
+        FLAGS.clear()
+    return out
+
+
+def listing(ctx, fn, g, P):
+    """C15.1 / C15.2: one iteration of the aligned listing loop, simulated over the four cells of S = q*P + r."""
     loops = [n for n in own_nodes(fn.node) if isinstance(n, ast.For) and any(isinstance(x, ast.Dict) and any(const_str(k) == "attr" for k in x.keys) for st in n.body for x in ast.walk(st))]
     if len(loops) != 1:
         ctx.undecided("C15.1", fn, "aligned listing loop (appending an entry with an 'attr' key) not found")
@@ -242,162 +321,302 @@ def run(ctx):
     apps = [x for st in loop.body for x in ast.walk(st) if isinstance(x, ast.Call) and isinstance(x.func, ast.Attribute) and x.func.attr == "append" and x.args and isinstance(x.args[0], ast.Dict)]
     real = [a for a in apps if not any(const_str(k) == "attr" for k in a.args[0].keys)]
     pads = [a for a in apps if any(const_str(k) == "attr" for k in a.args[0].keys)]
-    if len(real) != 1 or len(pads) != 1:
-        ctx.undecided("C15.1", fn, "expected one file entry and one padding entry append in the aligned loop")
+    if not real or not pads:
+        ctx.undecided("C15.1", fn, "expected a file entry and a padding entry appended in the aligned loop")
         return
-    rn, pn = C.stmt_node(ctx, fn, real[0]), C.stmt_node(ctx, fn, pads[0])
-    ent = {const_str(k): v for k, v in zip(pads[0].args[0].keys, pads[0].args[0].values)}
-    gap = norm(ent.get("length"))
-    ok_lit = const_str(ent.get("attr")) == "p" and isinstance(ent.get("length"), ast.Name) and set(ent) == {"attr", "length", "path"}
-    ctx.decide("C15.1", fn, ok_lit, "padding entry is {attr: 'p', length: gap, path: ...}", "padding entry literal is %s" % norm(pads[0].args[0]), pads[0])
-    same_list = norm(real[0].func.value) == norm(pads[0].func.value)
-    after = g.dominates(rn, pn) and same_list
-    between = [a for a in apps if a not in (real[0], pads[0])]
-    ctx.decide("C15.1", fn, after and not between, "the padding entry is appended to the same list directly after its file's entry",
-               "the padding entry does not directly follow its file's entry in info.files", norm(pads[0]) + " :: position")
-    conds = [(C.test_expr(b), lab) for b, lab in g.direct_control_deps(pn) if C.test_expr(b) is not None and b.kind == "test"]
-    ok_guard = len(conds) == 1 and ((norm(conds[0][0]) == gap and conds[0][1] == "true") or (norm(conds[0][0]) in ("%s > 0" % gap, "%s != 0" % gap) and conds[0][1] == "true"))
-    ctx.decide("C15.1", fn, ok_guard, "the padding entry is appended iff the gap is non-zero", "the padding entry is appended under %s" % [(norm(t), l) for t, l in conds], norm(pads[0]) + " :: guard")
-    # ---- C15.2 gap arithmetic over the four cells
-    # size variable: getsize of the loop variable
-    sdefs = [st for st in loop.body if isinstance(st, ast.Assign) and isinstance(st.value, ast.Call) and C.is_ext_call(ctx, st.value, fn, ("os.path.getsize",))]
-    if len(sdefs) != 1:
-        ctx.undecided("C15.2", fn, "file size definition not found in the aligned loop")
+    for pd in pads:
+        ent = {const_str(k): v for k, v in zip(pd.args[0].keys, pd.args[0].values)}
+        ok_lit = const_str(ent.get("attr")) == "p" and set(ent) == {"attr", "length", "path"}
+        ctx.decide("C15.1", fn, ok_lit, "padding entry is {attr: 'p', length: gap, path: ...}", "padding entry literal is %s" % norm(pd.args[0]), pd)
+    same_list = len({norm(a.func.value) for a in apps}) == 1
+    ctx.decide("C15.1", fn, same_list, "file entries and padding entries are appended to one list", "file entries and padding entries go to different lists: %s" % sorted({norm(a.func.value) for a in apps}),
+               norm(pads[0]) + " :: position")
+    # the padded listing is reached only with the switch on (and is reached with it on)
+    pn = C.stmt_node(ctx, fn, pads[0])
+
+    def flag(v):
+        return lambda x: v if (isinstance(x, ast.Attribute) and x.attr == "align") else None
+    off, on = C.reach_under(g, g.entry, flag(False)), C.reach_under(g, g.entry, flag(True))
+    ctx.decide("C15.3", fn, pn not in off and pn in on, "padding entries are appended only when self.align is set",
+               "padding entries are %s" % ("appended although self.align is off" if pn in off else "never appended when self.align is on"), loop.iter)
+    # the size the entries are computed from: the recorded length of the file entry
+    rent = {const_str(k): v for k, v in zip(real[0].args[0].keys, real[0].args[0].values)}
+    if not isinstance(rent.get("length"), ast.Name):
+        ctx.undecided("C15.2", fn, "the file entry's length `%s` is not a size variable" % norm(rent.get("length")), real[0])
         return
-    S = norm(sdefs[0].targets[0])
-    rlen = norm({const_str(k): v for k, v in zip(real[0].args[0].keys, real[0].args[0].values)}.get("length"))
-    ctx.decide("C15.2", fn, rlen == S, "the file entry records the same size the gap is computed from", "the file entry records %s but the gap is computed from %s" % (rlen, S), real[0])
+    S = rent["length"].id
     for cell in CELLS:
         label = "cell %s, %s" % cell
         try:
-            val = eval_gap(loop.body, gap, cell, S, P)
+            got = simulate(loop.body, apps, cell, S, P)
         except Unknown as exc:
-            ctx.undecided("C15.2", fn, "%s: gap expression outside the abstract domain (%s)" % (label, exc), "gap :: " + label)
+            ctx.undecided("C15.2", fn, "%s: the listing loop is outside the abstract domain (%s)" % (label, exc), "gap :: " + label)
             continue
-        want = Poly() if cell[1] == "r=0" else Poly(P=1, r=-1)
-        desc = "0 (no padding entry)" if val == Poly() else ("a full piece P" if val == Poly(P=1) else repr(val))
-        wdesc = "0 (no padding entry)" if want == Poly() else "P - r"
+        size = S_of(cell)
+        gapw = Poly() if cell[1] == "r=0" else Poly(P=1, r=-1)
+        want = [("file", size)] + ([("pad", gapw)] if cell[1] != "r=0" else [])
         ex = {("q=0", "r=0"): "an empty file", ("q=0", "r>0"): "a file shorter than a piece", ("q>=1", "r=0"): "a file of whole pieces", ("q>=1", "r>0"): "e.g. 16389 bytes with 16384-byte pieces"}[cell]
-        ctx.decide("C15.2", fn, val == want, "%s (S = q*P + r): gap = %s" % (label, desc),
-                   "%s (%s): the padding length is %s, must be %s - the listed lengths no longer add up to the pieces that are hashed" % (label, ex, desc, wdesc), "gap :: " + label)
-    # ---- C15.3 flag agreement
-    hc = [n for n in own_nodes(fn.node) if isinstance(n, ast.Call) and any(k[0] == "class" and k[1].name == "Hasher" for k in ctx.res.kinds(n.func, fn))]
-    kwname = None
-    for kw in (hc[0].keywords if hc else []):
-        if kw.arg is None:
-            kwname = norm(kw.value)
-    lit = [n for n in own_nodes(fn.node) if isinstance(n, ast.Assign) and norm(n.targets[0]) == kwname and isinstance(n.value, ast.Dict)]
-    ok = False
-    if lit:
-        d = {const_str(k): norm(v) for k, v in zip(lit[0].value.keys, lit[0].value.values)}
-        ok = d.get("align") == "self.align"
-    direct = any(kw.arg == "align" and norm(kw.value) == "self.align" for kw in (hc[0].keywords if hc else []))
-    ctx.decide("C15.3", fn, ok or direct, "the hasher receives align = self.align", "the hasher does not receive the align flag that controls the listing", hc[0] if hc else fn.node)
-    ln = g.of[loop]
-    tests = [(norm(C.test_expr(b)), lab) for b, lab in g.control_deps(ln) if C.test_expr(b) is not None]
-    sel = any((t == "not self.align" and lab == "false") or (t == "self.align" and lab == "true") for t, lab in tests)
-    ctx.decide("C15.3", fn, sel, "the padded listing is selected by the same self.align", "the padded listing is selected by %s" % tests, loop.iter)
-    # single file: align forced off before hashing
-    offs = [n for n in own_nodes(fn.node) if isinstance(n, ast.Assign) and isinstance(n.targets[0], ast.Subscript) and norm(n.targets[0].value) == kwname
-            and const_str(n.targets[0].slice) == "align" and isinstance(n.value, ast.Constant) and n.value.value is False]
-    ok = False
-    for o in offs:
-        on = C.stmt_node(ctx, fn, o)
-        isf = any("isfile(self.path)" in norm(C.test_expr(b)) and lab == "true" for b, lab in g.control_deps(on) if C.test_expr(b) is not None)
-        before = hc and C.stmt_node(ctx, fn, hc[0]) in g.reachable(on)
-        ok = ok or (isf and before)
-    ctx.decide("C15.3", fn, ok, "single file: only 'length' is recorded and zero-extension is switched off before hashing",
-               "a single aligned file is hashed with zero-extension although only its length is recorded: its last piece cannot be verified", "single-file align off")
-    # the hasher's align arm
-    hcls = ctx.prog.cls("torrentfile.hasher:Hasher")
-    hp = hcls.methods["_handle_partial"]
-    init = hcls.methods["__init__"]
-    st = [n for n in own_nodes(init.node) if isinstance(n, ast.Assign) and norm(n.targets[0]) == "self.align"]
-    ctx.decide("C15.3", init, len(st) == 1 and norm(st[0].value) == "align", "Hasher stores the align argument", "Hasher does not store its align argument unchanged", st[0] if st else init.node)
-    arm = [n for n in hp.node.body if isinstance(n, ast.If) and norm(n.test) == "self.align"]
-    arr = [p for p in hp.params if p != hp.self_name][0]
-    if len(arm) != 1:
-        ctx.undecided("C15.3", hp, "align arm of _handle_partial not found")
-    else:
-        body = arm[0].body
-        consts = module_consts(hcls.module)
-        ext = [x for s in body for x in ast.walk(s) if isinstance(x, ast.Call) and isinstance(x.func, ast.Attribute) and x.func.attr == "extend" and norm(x.func.value) == arr]
-        amount = None
-        if len(ext) == 1:
-            a = ext[0].args[0]
-            if isinstance(a, ast.Name):
-                vals = [s.value for s in body if isinstance(s, ast.Assign) and norm(s.targets[0]) == a.id]
-                a = vals[0] if len(vals) == 1 else a
-            if isinstance(a, ast.Call) and norm(a.func) in ("bytearray", "bytes") and len(a.args) == 1:
-                n_ = a.args[0]
-                if isinstance(n_, ast.Name):
-                    vals = [s.value for s in body if isinstance(s, ast.Assign) and norm(s.targets[0]) == n_.id]
-                    n_ = vals[0] if len(vals) == 1 else n_
-                amount = lin_of(n_, consts)
-        want = Lin.atom("self.piece_length").sub(Lin.atom("len(%s)" % arr))
-        rets = [s for s in body if isinstance(s, ast.Return)]
-        whole = None
-        if not ext and len(rets) == 1:
-            # alternative shape: the arm hashes the read buffer itself, whole - correct iff that buffer is piece_length
-            # zero bytes allocated anew for the read that filled it (its tail is then the zero padding)
-            whole = whole_buffer_arm(ctx, hcls, hp, rets[0])
-        if whole is not None:
-            okw, msg = whole
-            if okw is None:
-                ctx.undecided("C15.3", hp, msg, arm[0])
-            else:
-                ctx.decide("C15.3", hp, okw, msg, msg, arm[0])
-            arr = whole_param(hp, rets[0]) or arr
-        else:
-            ctx.decide("C15.3", hp, amount == want, "align arm zero-extends the short piece by piece_length - len(piece)",
-                       "align arm extends the short piece by %s zero bytes; must be %s" % (amount, want), arm[0])
-        ok = len(rets) == 1 and norm(rets[0].value) == "sha1(%s).digest()" % arr
-        reads_next = any(isinstance(x, ast.Call) and norm(x.func).endswith("next_file") for s in body for x in ast.walk(s))
-        ctx.decide("C15.3", hp, ok and not reads_next, "align arm returns the SHA-1 of the zero-extended piece without opening the next file",
-                   "align arm does not simply return sha1 of the zero-extended piece", rets[0] if rets else arm[0])
+
+        def desc(seq):
+            return ", ".join("%s entry of length %s" % (k, "a full piece P" if v == Poly(P=1) else repr(v)) for k, v in seq) or "nothing"
+        ok = got == want or (cell[1] == "r=0" and got == want + [("pad", Poly())])
+        ctx.decide("C15.2", fn, ok, "%s (S = q*P + r): one iteration lists %s" % (label, desc(got)),
+                   "%s (%s): one iteration lists %s; must be %s - the listed lengths no longer add up to the pieces that are hashed" % (label, ex, desc(got), desc(want)), "gap :: " + label)
 
 
-def whole_param(hp, ret):
-    v = ret.value
-    if isinstance(v, ast.Call) and isinstance(v.func, ast.Attribute) and v.func.attr == "digest" and isinstance(v.func.value, ast.Call) and v.func.value.args \
-            and isinstance(v.func.value.args[0], ast.Name) and v.func.value.args[0].id in hp.params:
-        return v.func.value.args[0].id
+def _flag_value(e, atom):
+    """Value of the align argument expression under `atom`: True / False / 'self.align' / None (not understood)."""
+    if isinstance(e, ast.Constant) and isinstance(e.value, bool):
+        return e.value
+    if isinstance(e, ast.Attribute) and e.attr == "align" and isinstance(e.value, ast.Name):
+        return "self.align"
+    if isinstance(e, ast.IfExp):
+        t = C.eval3(e.test, atom)
+        if t is None:
+            return None
+        return _flag_value(e.body if t else e.orelse, atom)
+    if isinstance(e, ast.BoolOp) and isinstance(e.op, ast.And):
+        vals = []
+        for v in e.values:
+            t = C.eval3(v, atom)
+            vals.append(t if t is not None else _flag_value(v, atom))
+        if any(v is False for v in vals):
+            return False
+        rest = [v for v in vals if v is not True]
+        return rest[0] if len(rest) == 1 else (True if not rest else None)
     return None
 
 
-def whole_buffer_arm(ctx, hcls, hp, ret):
-    """(verdict, text) for an align arm that hashes a parameter whole; None if the arm does not have that shape."""
+def flag_agreement(ctx, fn, g):
+    """C15.3: the hasher is constructed with align = self.align for a directory, and with align off for a single file
+    (only 'length' is recorded for it, so a zero-extended last piece could never be verified)."""
+    hc = [n for n in own_nodes(fn.node) if isinstance(n, ast.Call) and any(k[0] == "class" and k[1].name == "Hasher" for k in ctx.res.kinds(n.func, fn))]
+    if len(hc) != 1:
+        ctx.undecided("C15.3", fn, "expected one construction of the v1 hasher in assemble, found %d" % len(hc))
+        return
+    hn = C.stmt_node(ctx, fn, hc[0])
+    kwname = None
+    sources = []        # (expr, cfg node | None)
+    for kw in hc[0].keywords:
+        if kw.arg is None:
+            kwname = norm(kw.value)
+        elif kw.arg == "align":
+            sources.append((kw.value, None))
+    stores = []
+    if kwname is not None and not sources:
+        for n in own_nodes(fn.node):
+            if isinstance(n, ast.Assign) and norm(n.targets[0]) == kwname and isinstance(n.value, ast.Dict):
+                for k, v in zip(n.value.keys, n.value.values):
+                    if const_str(k) == "align":
+                        sources.append((v, C.stmt_node(ctx, fn, n)))
+            if isinstance(n, ast.Assign) and isinstance(n.targets[0], ast.Subscript) and norm(n.targets[0].value) == kwname and const_str(n.targets[0].slice) == "align":
+                stores.append((n.value, C.stmt_node(ctx, fn, n)))
+    if len(hc[0].args) > 2 and not sources:
+        sources.append((hc[0].args[2], None))
+    if len(sources) != 1:
+        ctx.undecided("C15.3", fn, "the align argument of the hasher could not be located (%d candidate expressions)" % len(sources), hc[0])
+        return
+    # names holding os.path.isfile(<content path>)
+    single_names = set()
+    for name, bl in ctx.res.bindings(fn).items():
+        vals = [p_ for w_, p_ in bl if w_ == "value"]
+        if len(vals) == 1 and len(bl) == 1 and isinstance(vals[0], ast.Call) and C.is_ext_call(ctx, vals[0], fn, ("os.path.isfile",)):
+            single_names.add(name)
+
+    def world(single):
+        def atom(x):
+            if isinstance(x, ast.Call) and C.is_ext_call(ctx, x, fn, ("os.path.isfile",)):
+                return single
+            if isinstance(x, ast.Call) and C.is_ext_call(ctx, x, fn, ("os.path.isdir",)):
+                return not single
+            if isinstance(x, ast.Name) and x.id in single_names:
+                return single
+            return None
+        return atom
+    for single in (True, False):
+        atom = world(single)
+        live = C.reach_under(g, g.entry, atom)
+        if hn not in live:
+            ctx.undecided("C15.3", fn, "the hasher construction is not reached for a %s" % ("single file" if single else "directory"), hc[0])
+            continue
+        val = _flag_value(sources[0][0], atom)
+        which = norm(sources[0][0])
+        decided = True
+        for v, sn in stores:
+            if sn in live and hn in g.reachable(sn):
+                # a store on some path: it decides the value only if no path under this world avoids it
+                if hn in C.reach_under(g, g.entry, atom, stop=[sn]):
+                    decided = False
+                val, which = _flag_value(v, atom), norm(ctx.prog.enclosing_stmt(v))
+        if not decided or val is None:
+            ctx.undecided("C15.3", fn, "the align value the hasher receives for a %s could not be evaluated (`%s`)" % ("single file" if single else "directory", which), hc[0])
+            continue
+        if single:
+            ctx.decide("C15.3", fn, val is False, "single file: only 'length' is recorded and zero-extension is switched off before hashing",
+                       "a single aligned file is hashed with zero-extension although only its length is recorded: its last piece cannot be verified", "single-file align off")
+        else:
+            ctx.decide("C15.3", fn, val == "self.align", "the hasher receives align = self.align", "the hasher does not receive the align flag that controls the listing: it receives %s" % val, hc[0])
+
+
+def _align_truth(t, value=True):
+    """Three-valued value of a test when self.align has the given value."""
+    def atom(x):
+        if isinstance(x, ast.Attribute) and x.attr == "align":
+            return value
+        return None
+    return C.eval3(t, atom)
+
+
+def aligned_short_read(ctx, hcls, hp):
+    """C15.3, the hasher side: after a short, non-empty read with the align switch on, what is hashed is the bytes read
+    followed by piece_length - n zero bytes - whichever way the code spells it (extending the slice, feeding a second
+    update to the SHA-1 object, or hashing a fresh zero-filled read buffer whole)."""
     from tfsa.reach import ReachDefs
     from .c01 import buffer_info
-    pname = whole_param(hp, ret)
-    if pname is None:
-        return None
+    from .bytes_seq import Interp, Unknown, canon, show, N
     nx = hcls.methods["__next__"]
-    idx = [p for p in hp.params if p != hp.self_name].index(pname)
+    consts = module_consts(hcls.module)
     g = C.cfg_of(nx)
     rdf = ReachDefs(nx, g)
-    verdicts = []
-    for call in [n for n in own_nodes(nx.node) if isinstance(n, ast.Call) and any(t is hp for t in C.targets_of(ctx, nx, n))]:
-        if idx >= len(call.args) or not isinstance(call.args[idx], ast.Name):
-            return None, "the align arm hashes its parameter %r whole, but the caller passes `%s`" % (pname, norm(call.args[idx]) if idx < len(call.args) else "?")
-        buf = call.args[idx].id
-        reads = [n for n in own_nodes(nx.node) if isinstance(n, ast.Assign) and isinstance(n.value, ast.Call) and isinstance(n.value.func, ast.Attribute) and n.value.func.attr == "readinto"
-                 and n.value.args and isinstance(n.value.args[0], ast.Name) and n.value.args[0].id == buf]
-        if len(reads) != 1:
-            return None, "the buffer handed to the align arm is not filled by exactly one readinto"
-        cap, fresh = buffer_info(ctx, nx, g, rdf, buf, C.stmt_node(ctx, nx, reads[0]))
-        if cap is None:
-            return None, "capacity of the buffer handed to the align arm could not be determined"
-        if cap != "self.piece_length":
-            verdicts.append((False, "align arm hashes the whole read buffer, whose capacity is %s, not the piece length" % cap))
-        elif not fresh:
-            verdicts.append((False, "align arm hashes the whole read buffer, but that buffer is reused between reads: beyond the bytes just read it holds the previous piece, not zero padding"))
+    reads = [n for n in own_nodes(nx.node) if isinstance(n, ast.Assign) and isinstance(n.value, ast.Call) and isinstance(n.value.func, ast.Attribute) and n.value.func.attr == "readinto"
+             and n.value.args and isinstance(n.value.args[0], ast.Name) and isinstance(n.targets[0], ast.Name)]
+    if len(reads) != 1:
+        ctx.undecided("C15.3", nx, "expected one readinto in the v1 hasher's __next__, found %d" % len(reads))
+        return
+    buf, sz = reads[0].value.args[0].id, reads[0].targets[0].id
+    rn = C.stmt_node(ctx, nx, reads[0])
+    cap, fresh = buffer_info(ctx, nx, g, rdf, buf, rn)
+    PL = Lin.atom("self.piece_length")
+    want = canon([("data",), ("zeros", PL.sub(N))])
+
+    def short_aligned(x):
+        if isinstance(x, ast.Attribute) and x.attr == "align":
+            return True
+        if isinstance(x, ast.Compare) and len(x.ops) == 1 and norm(x.left) == sz:
+            r, op = norm(x.comparators[0]), type(x.ops[0])
+            if r == "self.piece_length":
+                return {ast.Lt: True, ast.NotEq: True, ast.Eq: False, ast.GtE: False, ast.LtE: True, ast.Gt: False}.get(op)
+            if r == "0":
+                return {ast.Eq: False, ast.NotEq: True, ast.Gt: True, ast.LtE: False, ast.GtE: True, ast.Lt: False}.get(op)
+        if isinstance(x, ast.Name) and x.id == sz:
+            return True
+        return None
+
+    def is_sha1_in(fn):
+        return lambda call: C.is_ext_call(ctx, call, fn, ("hashlib.sha1",))
+
+    def nx_leaf(e):
+        if isinstance(e, ast.Subscript) and isinstance(e.value, ast.Name) and e.value.id == buf and isinstance(e.slice, ast.Slice) \
+                and e.slice.lower is None and e.slice.step is None and norm(e.slice.upper) == sz:
+            return [("data",)]
+        if isinstance(e, ast.Name) and e.id == buf:
+            if cap is None:
+                raise Unknown("capacity of the read buffer %r could not be determined" % buf)
+            capl = lin_of(ast.parse(cap, mode="eval").body, consts)
+            if capl is None:
+                raise Unknown("capacity %s of the read buffer is outside the term language" % cap)
+            return [("data",), ("zeros", capl.sub(N))] if fresh else [("data",), ("stale",)]
+        return None
+
+    def nx_int(x):
+        if isinstance(x, ast.Name) and x.id == sz:
+            return N
+        return None
+
+    sites = 0
+    after = C.reach_under(g, rn, short_aligned, stop=[rn])
+    for r in [n for n in own_nodes(nx.node) if isinstance(n, ast.Return) and n.value is not None]:
+        node = C.stmt_node(ctx, nx, r)
+        if node is None or node not in after:
+            continue            # not reached after a short non-empty read with align on
+        sites += 1
+        # statements of the same block that precede the return
+        par = ctx.prog.parent.get(r)
+        prefix = []
+        for field in ("body", "orelse", "finalbody"):
+            lst = getattr(par, field, None)
+            if isinstance(lst, list) and r in lst:
+                prefix = lst[:lst.index(r)]
+        it = Interp(is_sha1_in(nx), nx_leaf, nx_int, consts)
+        try:
+            for st in prefix:
+                try:
+                    it.step(st)
+                except Unknown:
+                    pass            # a statement of the block that does not concern the digest; names it binds stay unknown
+            v = r.value
+            hp_call = isinstance(v, ast.Call) and any(t is hp for t in C.targets_of(ctx, nx, v))
+            if hp_call:
+                bound = {}
+                ps = [p_ for p_ in hp.params if p_ != hp.self_name]
+                for i_, a in enumerate(v.args):
+                    if i_ < len(ps):
+                        bound[ps[i_]] = a
+                for kw in v.keywords:
+                    if kw.arg in ps:
+                        bound[kw.arg] = kw.value
+                if set(bound) != set(ps):
+                    raise Unknown("call of %s does not bind every parameter" % hp.name)
+                vals = {}
+                for p_, a in bound.items():
+                    try:
+                        vals[p_] = ("bytes", it.ev_bytes(a))
+                    except Unknown:
+                        vals[p_] = ("int", it.ev_int(a))
+                got = partial_handler(ctx, hp, vals, consts, is_sha1_in(hp))
+            else:
+                got = it.hashed(v)
+        except Unknown as exc:
+            ctx.undecided("C15.3", nx, "what `%s` hashes after a short read of an aligned torrent could not be followed: %s" % (norm(r)[:50], exc), r)
+            continue
+        except Continued as exc:
+            ctx.violated("C15.3", hp, "align switch on, short piece: %s - the piece is completed with the next file's bytes, not with the zero bytes the padding entry stands for" % exc, r)
+            continue
+        got = canon(got)
+        ctx.decide("C15.3", nx, got == want, "align switch on, short piece: `%s` hashes the bytes read followed by piece_length - n zero bytes" % norm(r)[:50],
+                   "align switch on, short piece: `%s` hashes %s; the padded layout needs the bytes read + (self.piece_length - n) zero bytes" % (norm(r)[:50], show(got)), r)
+    ctx.floor("returns of the v1 hasher reached after a short aligned read", 1, sites)
+
+
+class Continued(Exception):
+    pass
+
+
+def partial_handler(ctx, hp, arg_parts, consts, is_sha1):
+    """What the partial-piece handler hashes for `arg_parts` when self.align is on: follow its statements with the switch
+    decided; a loop that opens the next file is the unaligned behaviour."""
+    from .bytes_seq import Interp, Unknown
+    it = Interp(is_sha1, lambda e: None, lambda x: None, consts)
+    for p_, (kind, val) in arg_parts.items():
+        if kind == "bytes":
+            it.bytes_env[p_] = list(val)
         else:
-            verdicts.append((True, "align arm hashes the whole read buffer = the bytes read followed by zeros up to piece_length (the buffer is allocated anew for every read)"))
-    if not verdicts:
-        return None, "no call of the partial-piece handler found"
-    bad = [v for v in verdicts if not v[0]]
-    return bad[0] if bad else verdicts[0]
+            it.int_env[p_] = val
+
+    def run(stmts):
+        for st in stmts:
+            if isinstance(st, ast.If):
+                t = _align_truth(st.test)
+                if t is None:
+                    raise Unknown("`if %s` is not decided by the align switch" % norm(st.test))
+                res = run(st.body if t else st.orelse)
+                if res is not None:
+                    return res
+                continue
+            if isinstance(st, (ast.While, ast.For)):
+                if any(isinstance(x, ast.Call) and norm(x.func).endswith("next_file") for x in ast.walk(st)):
+                    raise Continued("%s reaches `%s`" % (hp.name, norm(st.test if isinstance(st, ast.While) else st.iter)[:60]))
+                raise Unknown("loop `%s`" % norm(st)[:40])
+            if isinstance(st, ast.Expr) and isinstance(st.value, ast.Call) and norm(st.value.func).endswith("next_file"):
+                raise Continued("%s calls next_file()" % hp.name)
+            res = it.step(st)
+            if res is not None:
+                return res
+        return None
+    res = run(hp.node.body)
+    if res is None:
+        raise Unknown("%s does not return a digest on the aligned path" % hp.name)
+    return res
 
 
 def eval_gap(body, gap, cell, S, P):
